@@ -2,5 +2,6 @@ SPECIFICATION Spec
 CONSTANTS MaxId = 5
  R = 2
  Slack = 0
+ SplitBack = FALSE
 INVARIANTS TypeOK AtRest BoundAlways SearchSafe
 CHECK_DEADLOCK FALSE
